@@ -3,7 +3,9 @@
 A *case* (JSON-able) fixes the task configuration of ClientLoop.tla and a script for the environment:
 
   {"src": ..., "exact": bool,
-   "cfg": {kind, wi, it, wt, tp, sched, tnum, tden, tunit, runit, clients, idx, total, ramp, tps, client, task},
+   "cfg": {kind, wi, it, wt, tp, sched, tnum, tden, tunit, runit, clients, idx, total, ramp, tps, client, task, rc},
+                                                  rc: 0 = ordinary runner, k = runner object with completed/percent_completed,
+                                                  completed from its k-th call on
    "t0": ticks,                                   virtual clock when the client coroutine is started
    "script": [{"d1","svc","d2","out","w","ext"}], per request: client overhead before the wire request, service time,
                                                   client overhead after it (ticks), outcome ok|api|transport|timeout,
@@ -14,6 +16,11 @@ A *case* (JSON-able) fixes the task configuration of ClientLoop.tla and a script
 All times are integers in ticks, cfg.tps ticks per second.  `execute(case)` runs the REAL schedule_for + ScheduleHandle +
 loop control + scheduler + AsyncExecutor + execute_single + Sampler + RequestContextHolder on vclock.VirtualLoop with a
 scripted fake client and returns the trace item for TraceClientLoop.tla (everything observed, in ticks; no floats).
+
+An *element case* (key "tasks", see execute_element) is one schedule element - a plain task or a `parallel` with an optional
+clients cap and ramp-up - that goes through the REAL Allocator -> ClientAllocations -> AsyncIoAdapter -> AsyncExecutor path; it
+yields one trace item per (client, task allocation), with "elem" = the element's declaration from which TraceClientLoop.tla
+derives the client's index, the total and the sub-task's clients.
 """
 import asyncio
 import glob
